@@ -352,6 +352,40 @@ def sx_sorted(it, *, key=None, reverse=False):
     return res
 
 
+class SymSet:
+    """set() of a small collection containing symbolic integers: duplicates are removed by pairwise symbolic
+    comparison (complete case split); only len / iteration / membership are offered."""
+
+    def __init__(self, items):
+        self.items = []
+        for x in items:
+            if not sx_contains(x, self.items):
+                self.items.append(x)
+
+    def __len__(self):
+        return len(self.items)
+
+    def __iter__(self):
+        return iter(self.items)
+
+    def __contains__(self, x):
+        return sx_contains(x, self.items)
+
+    def add(self, x):
+        if not sx_contains(x, self.items):
+            self.items.append(x)
+
+
+class sx_set(metaclass=_TypeShim):
+    _real = set
+
+    def __new__(cls, it=()):
+        lst = list(it)
+        if any(_issym(x) for x in lst):
+            return SymSet(lst)
+        return set(lst)
+
+
 # ------------------------------------------------------------------------------------------------
 # rewritten operations (see loader.py)
 def sx_contains(a, b):
@@ -604,7 +638,7 @@ def crc_generic(data, width, poly, init, rev, xor_out):
     """CRC of byte items (ints/SymInts).  poly without the top bit; init is the *raw register*
     start value (crcmod semantics: mkCrcFun(initCrc) is xor-ed with xorOut first)."""
     items = items_of(data)
-    if not any(_issym(b) for b in items):
+    if not any(_issym(b) for b in items) and not _issym(init):
         # concrete: plain python
         crc = init
         mask = (1 << width) - 1
@@ -620,8 +654,8 @@ def crc_generic(data, width, poly, init, rev, xor_out):
                 for _ in range(8):
                     crc = ((crc << 1) & mask) ^ (poly if crc >> (width - 1) & 1 else 0)
         return (crc ^ xor_out) & mask
-    crc = z3.BitVecVal(init, width)
-    wt = 0
+    crc = _bv(init, width)
+    wt = getattr(init, "w", 0)
     if rev:
         rp = z3.BitVecVal(_reflect(poly, width), width)
         for b in items:
@@ -653,8 +687,6 @@ def mkCrcFun(poly, initCrc=~0, rev=True, xorOut=0):
 
     def fun(data, crc=None):
         reg = init_reg if crc is None else ((crc & mask) ^ xorOut)
-        if _issym(reg):
-            raise Unsupported("symbolic CRC seed")
         return crc_generic(data, width, p, reg, rev, xorOut)
     fun.__symx_crc__ = (width, p, init_reg, rev, xorOut)
     return fun
@@ -679,7 +711,7 @@ SHIM.update(
     isinstance=sx_isinstance, issubclass=sx_issubclass, int=sx_int, bool=sx_bool, bytes=sx_bytes,
     bytearray=sx_bytearray, memoryview=sx_memoryview, len=sx_len, abs=sx_abs, max=sx_max, min=sx_min,
     sum=sx_sum, divmod=sx_divmod, pow=sx_pow, round=sx_round, hex=sx_hex, bin=sx_bin, oct=sx_oct,
-    sorted=sx_sorted, sx_truth_=sx_truth, sx_contains_=sx_contains, sx_getitem_=sx_getitem, sx_join_=sx_join,
+    sorted=sx_sorted, set=sx_set, sx_truth_=sx_truth, sx_contains_=sx_contains, sx_getitem_=sx_getitem, sx_join_=sx_join,
     sx_real_int_=int, sx_real_str_=str, sx_real_bytes_=bytes, sx_real_float_=float, sx_real_bool_=bool,
     sx_real_bytearray_=bytearray,
 )
